@@ -151,6 +151,16 @@ func (this *Hnsw) Load(r io.Reader, header bool) error {
 
 	uuidBuf := make([]byte, uuid.Size)
 	if _, err := io.ReadFull(r, uuidBuf); err != nil {
+		if err == io.EOF {
+			// Save writes nothing after the header for an index without items
+			this.len = 0
+			this.bytesSize = 0
+			for i, _ := range this.vertices {
+				this.vertices[i] = make(map[uuid.UUID]*hnswVertex)
+			}
+			atomic.StorePointer(&this.entrypoint, nil)
+			return nil
+		}
 		return err
 	}
 	entrypointId, err := uuid.FromBytes(uuidBuf)
